@@ -3,7 +3,8 @@ import asyncio, random, sys
 from . import common, e2
 
 COMPS = ["inv_nodes_b", "inv_local_b", "inv_reach_b", "inv_rows_b", "inv_deps_b", "inv_acyclic_b",
-         "inv_undeclared_b", "inv_fhash_b", "inv_step_b", "inv_running_nohash_b", "inv_succeeded_b"]
+         "inv_undeclared_b", "inv_fhash_b", "inv_step_b", "inv_running_nohash_b", "inv_succeeded_b",
+         "inv_nocreator_b"]
 
 
 def main():
